@@ -5,6 +5,7 @@ from __future__ import annotations
 import ast
 
 from framelint.core import rule, Ctx
+from framelint.canon import _shift_bound
 from framelint.srcmodel import walk_own, AnalysisError
 from framelint.canon import (Canon, CanonOptions, canon_function, show, S, to_poly, mk_lt, mk_not, mk_and, mk_eq, k_num, contains, skey,
                              atoms_of, Sigma, K_TRUE, single_defs, deref, Poly, diff_paths)
@@ -132,7 +133,7 @@ def r2(ctx: Ctx) -> None:
         outer_b, outer_it, _ = t[3][0]
         inner = t[2][0]
         inner_b, inner_it, _ = inner[3][0]
-        if inner[2][0] == ("s", ("s", m, inner_b), outer_b) and inner_it == ("c", ("g", "range"), (("a", S_, "_nrows"),), ()) and \
+        if inner[2][0] == ("s", ("s", m, inner_b), _shift_bound(outer_b, 1)) and inner_it == ("c", ("g", "range"), (("a", S_, "_nrows"),), ()) and \
                 outer_it == ("c", ("g", "range"), (("a", S_, "_ncols"),), ()):
             ok_t = True
     back = atoms_of(c, lambda x: x[0] == "c" and x[1] == ("g", "StropRectangle") and len(x[2]) == 2 and x[2][0][0] == "a" and x[2][0][2] == "columns"
